@@ -252,16 +252,37 @@ def uninstall():
         ScriptAdapterFactory.factories["local"] = _saved_local
 
 
+# how the instances of an execution scenario are called: "s" -> s1, s2, ...; "short" -> the even ones
+# a single letter (b, d, ... would be too regular: a, b, c, d for 2, 4, 6, 8), the odd ones a long name
+# that holds every one of those letters (seeded change C02-m: a visited set seeded with the
+# *characters* of the failing step's name).  Set by `build_graph` from the scenario.
+NAME_STYLE = "s"
+
+
 def sname(i):
-    return SOURCE if i == 0 else "s%d" % i
+    if i == 0:
+        return SOURCE
+    if NAME_STYLE == "short":
+        if i % 2 == 0 and i // 2 <= 26:
+            return chr(96 + i // 2)
+        return "abcdefgh%d" % i
+    return "s%d" % i
 
 
 def sidx(name):
-    return 0 if name == SOURCE else int(name[1:])
+    if name == SOURCE:
+        return 0
+    if NAME_STYLE == "short":
+        if len(name) == 1:
+            return 2 * (ord(name) - 96)
+        return int(name[8:])
+    return int(name[1:])
 
 
 def build_graph(scn, root):
     """Build a real ExecutionGraph for scenario `scn` (see gen_exec.py)."""
+    global NAME_STYLE
+    NAME_STYLE = scn.get("names", "s")
     n = scn["n"]
     g = ExecutionGraph(submission_attempts=scn["attempts"],
                        submission_throttle=scn["throttle"],
